@@ -2,7 +2,8 @@
    consequences stated as properties (well-formedness, release exactly once, clone). *)
 From Coq Require Import List Arith ZArith Bool Lia Permutation Wf_nat.
 From MptV Require Import C14.NodeModel C14.NodeSpec C14.NodeRep C14.NodeFocus C14.NodeExec
-  C14.NodeLocal C14.NodeInv C14.NodeRefine C14.NodeFree C14.NodeClone C14.NodeInsert C14.NodeInsertName.
+  C14.NodeLocal C14.NodeInv C14.NodeRefine C14.NodeFree C14.NodeClone C14.NodeInsert C14.NodeInsertName
+  C14.NodeWalk.
 Import ListNotations.
 Local Open Scope nat_scope.
 
@@ -10,7 +11,7 @@ Local Open Scope nat_scope.
 Definition proved (o : op) : Prop :=
   match o with
   | ONew _ _ | OAfter _ _ | OBefore _ _ | OAdd _ _ _ _ | OIns _ _ _ _ | OUnlink _
-  | OClone _ | OLClone _ | OTClone _ | OClear _ | ODestroy _ => True
+  | OClone _ | OLClone _ | OTClone _ | OClear _ | ODestroy _ | ORelink _ | OTrav _ _ _ => True
   | _ => False
   end.
 
@@ -28,6 +29,8 @@ Proof.
   - apply step_tclone.
   - apply step_clear.
   - apply step_destroy.
+  - apply step_relink.
+  - apply step_trav.
 Qed.
 
 (* model trace and specification trace agree step by step: no fault, same result,
